@@ -87,6 +87,7 @@ def run(tier, seed):
     # runs stopped at step k and continued, with a worker's / facility's own absence list edited at the stop; second runs after such edits
     col.merge(stepcheck.explore(stepcheck.resumed_edit_items(("worker-absence-append-3",), ks=(1, 2, 3)) + stepcheck.resumed_edit_items(("worker-absence-inplace",), ks=(1,))
                                 + stepcheck.edited_items(names=("worker-absence-inplace", "worker-absence-move", "worker-absence-append-3", "facility-absence-inplace")), MONS, 0, 0, seed=seed))
+    col.merge(stepcheck.explore(F.scale_items(("TSLACK",)), MONS, 0, 0, seed=seed))  # medium-sized models (10-14 tasks / workers / machines), long absence lists
     meta = {
         "level": "model_checking",
         "rule": "3-task FS/FF(/SS) and 2-task all-kind workflows over dyadic work amounts x worker layouts (mixed skills incl. 0 and missing, solo, dedicated) "
